@@ -28,7 +28,8 @@ Inductive c12case :=
 (* journal.Reader (strict, checksum) on the stream gave these observations, in this order *)
 | CRead (strict checksum : bool) (stream : list seg) (o : list obs)
 (* journal.Writer produced the stream from these records: the model reader must accept it as
-   exactly these records without any drop, in every mode (format membership) *)
+   exactly these records without any drop, strict with checksums and tolerant without
+   (format membership) *)
 | CWrite (stream : list seg) (recs : list (list seg))
 (* util.NewCRC(data).Value() = v *)
 | CCrc (data : list seg) (v : N).
@@ -58,8 +59,7 @@ Definition run_case (c : c12case) : bool :=
   | CWrite stream recs =>
       let b := segs_bytes stream in
       let want := map ORec recs in
-      all2 obs_eq (rd true true b) want && all2 obs_eq (rd false true b) want &&
-      all2 obs_eq (rd true false b) want
+      all2 obs_eq (rd true true b) want && all2 obs_eq (rd false false b) want
   | CCrc data v =>
       let b := segs_bytes data in
       (jcrc b =? v) && (if Nat.ltb (List.length b) 600 then masked_crc_bitwise jcp b =? v else true)
